@@ -23,6 +23,10 @@ type xgen struct {
 	rich  bool // sub-object defaults everywhere: most member properties have defaults, half of the object-typed properties declare a (partial) object default
 }
 
+// xgenRichDefaults (opt-in, set around a generator call; the default streams stay as they are): member defaults come
+// from richDefaultFor - JSON lists / maps on `any`-typed members, non-empty list and map defaults.
+var xgenRichDefaults bool
+
 type xcand struct {
 	prop  string
 	types []func() *sx.Node
@@ -214,14 +218,19 @@ func (g *xgen) decorate(ps []propD) {
 		case 5:
 			p.conflicts = g.names(others)
 		}
-		if r.Chance(20) || g.rich && (p.t.Head() == "xobject" || p.t.Head() == "ref" || p.t.Head() == "object") && r.Chance(40) {
+		if r.Chance(20) || g.rich && (p.t.Head() == "xobject" || p.t.Head() == "ref" || p.t.Head() == "object") && r.Chance(40) ||
+			xgenRichDefaults && r.Chance(45) {
 			switch p.t.Head() {
 			case "xobject", "ref":
 				p.dflt = sp(pick(r, []string{"{\"a\":5}", "{\"b\":\"dflt\"}", "{}", "{\"a\":7,\"b\":\"x\"}"}))
 			case "object":
 				p.dflt = sp(pick(r, []string{"{\"p\":5}", "{}"}))
 			default:
-				p.dflt = defaultFor(r, p.t)
+				if xgenRichDefaults {
+					p.dflt = richDefaultFor(r, p.t) // container defaults (JSON lists / maps) on `any`, list and map members
+				} else {
+					p.dflt = defaultFor(r, p.t)
+				}
 			}
 		}
 		if r.Chance(25) {
